@@ -72,6 +72,24 @@ class Concurrent(Suite):
                         out.append(mk_case(n, [("resp", i) for i in perm], slots, extras, [4] * n))
                         if not extras:
                             out.append(mk_case(n, [("resp", i) for i in perm], slots, extras, [4] * n, auto_ids=True))
+        # a single caller answered exactly on its poll boundaries, in the order a real reader task
+        # produces ("io": the item is handed over before the timer callback runs, the caller
+        # resumes after it) — nobody else can have consumed the response
+        for k in (1, 2, 3, 4):
+            for tie in ("io", "events", "timers"):
+                for pre in ([], [(0, "notif")]):
+                    c = {"callers": [{"id": {"s": "solo"}, "start": 0, "D": 5 * P + 256}],
+                         "ev": [[q * P + 16 + j, {"k": "notif", "method": "notifications/message"}] for j, (q, _) in enumerate(pre)]
+                         + [[k * P, {"k": "resp", "id": {"$CALLER": 0}, "p": {"for": 0, "n": k}}]],
+                         "tie": tie}
+                    out.append(c)
+        # callers whose ids differ only in JSON type (7 and "7"), answered in both orders
+        for first in (0, 1):
+            for gap in (1, P + 40):
+                ids = [{"i": 7}, {"s": "7"}]
+                ev = [[16 + 1, {"k": "resp", "id": {"$CALLER": first}, "p": {"for": first}}],
+                      [16 + 2 + gap, {"k": "resp", "id": {"$CALLER": 1 - first}, "p": {"for": 1 - first}}]]
+                out.append({"callers": [{"id": ids[0], "start": 0, "D": 4 * P + 256}, {"id": ids[1], "start": 1, "D": 4 * P + 256}], "ev": ev})
         rng = ctx.sub_rng("c18", budget)
         m = 4000 if budget == "quick" else 100000
         for _ in range(m):
